@@ -28,7 +28,7 @@ CHECK_ARGS = dict(
     pkg="bmci", props="Proofs.Props.C18", driver="drv_c18",
     lemma_files=["Proofs/Lemmas/ListAux.lean", "Proofs/Lemmas/Window.lean", "Proofs/Lemmas/Stats.lean",
                  "Proofs/Lemmas/Interp.lean", "Proofs/Lemmas/Ecdf.lean", "Proofs/Lemmas/Spectral.lean",
-                 "Proofs/Lemmas/VarShift.lean"],
+                 "Proofs/Lemmas/VarShift.lean", "Proofs/Lemmas/Bisect.lean"],
     model_files=["Model/Bmci.lean"],
     trusted=[
         "hand-written model Model/Bmci.lean tied to typhon/retrieval/bmci/bmci.py by the correspondence run of this check "
@@ -466,6 +466,7 @@ def run_case(ck, case, use_model=True):
             # entries outside the MODEL's window whose chi2 (oracle, as double) is <= x2_max: must be none
             thr = F(x2 * (1 - 1e-9)) if restricted else Fraction(0)
             ops.append(f"excl {qargs} {fs(thr)}")
+            ops.append("windowbin " + qargs)
             n_excl_py = int(np.sum((chi2s[~inwin].astype(float) <= float(thr)))) if restricted else 0
             model_lines.append(ops)
             model_expect.append((qi, ro, c_float, xsorted[il:iu], n_excl_py))
@@ -478,6 +479,8 @@ def run_case(ck, case, use_model=True):
             o = out[pos:pos + len(ops)]
             pos += len(ops)
             compare_model(ck, sub(qi), o, ro, c_float, xw, taus)
+            if o[12] != f"{ro['il']} {ro['iu']}":
+                ck.disagree(f"x2_max={case['queries'][qi]['x2_max']}: window by bisection, model {o[12]} vs code {ro['il']} {ro['iu']}", sub(qi))
             if o[7].split()[0] == "ok" and o[8] == f"{ro['il']} {ro['iu']}" and o[11] != str(n_excl_py):
                 ck.disagree(f"x2_max={case['queries'][qi]['x2_max']}: entries left out with chi2 <= x2_max: model {o[11]} vs harness {n_excl_py}", sub(qi))
 
@@ -506,7 +509,7 @@ def parse_q(s):
 
 
 def compare_model(ck, c1, o, ro, c_float, xw, taus):
-    """o = driver answers to [load, window, predict, cdf, quant, quant-, quant+, rows, window, predict, cdf, excl]"""
+    """o = driver answers to [load, window, predict, cdf, quant, quant-, quant+, rows, window, predict, cdf, excl, windowbin]"""
     x2 = c1["queries"][0]["x2_max"]
     tag = f"x2_max={x2}"
     if o[0] != "ok":
